@@ -60,64 +60,12 @@ NTASKS = 4
 
 
 # ------------------------------------------------------------------------------------------------
-# known-finding signatures
-
-def _tok_list(case):
-    return [t for t in case.get("tokens", []) if len(t) >= 2]
-
-
-def _sig_server_close_vs_receive(case, params):
-    """server, close-code oracle: a provisional code stored by receive() (1000 by the CLOSING / EofStream handlers,
-    the error code by the WebSocketError handler) survives because close() was issued by another task."""
-    toks = _tok_list(case)
-    code = case.get("observed_code")
-    provisional = code == 1000 or any(t[0] in "pq" and t[1] == "b" and int(t[2:]) == code for t in toks)
-    return (case.get("side") == "S" and case.get("kind") == "close_code" and provisional
-            and any(t[0] == "c" and t[2] == "k" for t in toks) and any(t[0] == "c" and t[2] == "r" for t in toks))
-
-
-def _sig_server_cancel_cw(case, params):
-    """server, a close() was cancelled: session closed with the transport open (and, if the receiver was cancelled
-    too, no close code at all)"""
-    return (case.get("side") == "S"
-            and (case.get("kind") == "transport_open" or (case.get("kind") == "close_code" and case.get("observed_code") is None))
-            and any(t[0] == "x" for t in _tok_list(case)) and any(t[0] == "c" and t[2] == "k" for t in _tok_list(case))
-            and any(t[0] == "c" and t[2] == "r" for t in _tok_list(case)))
-
-
-def _sig_client_eof_overwrite(case, params):
-    """client, two close() calls racing a blocked receive(): the receive() and the second close() read each other's
-    messages; 1000 (EofStream handler) or 1006 (close() finds the buffer empty) reported for a clean handshake"""
-    toks = _tok_list(case)
-    return (case.get("side") == "C" and case.get("kind") == "close_code" and case.get("observed_code") in (1000, 1006)
-            and sum(1 for t in toks if t[0] == "c" and t[2] == "k") >= 2 and any(t[0] == "c" and t[2] == "r" for t in toks))
-
-
-def _sig_client_error_code(case, params):
-    """client, close-code oracle, after a malformed frame the reported code is the protocol-error code we sent"""
-    return (case.get("side") == "C" and case.get("kind") == "close_code"
-            and any(t[1] == "b" and t[0] in "pq" and int(t[2:]) == case.get("observed_code") for t in _tok_list(case)))
-
-
-def _sig_client_close_timeout_restart(case, params):
-    return (case.get("side") == "C" and case.get("kind") == "close_overrun"
-            and case.get("peer_frames_after_close", 0) > 0)
-
-
-def _sig_backpressure(case, params):
-    return (case.get("kind") in ("data_after_close", "close_overrun", "receive_stuck") and "wp" in case.get("tokens", []))
-
+# known findings: all six C13 findings are fixed in /repo (known_findings.d/C13.json, status "fixed:<commit>");
+# nothing is suppressed, their replays run first as corpus/C13/fixed_*.json
 
 BACKPRESSURE_TIMING_KINDS = ("close_overrun", "receive_stuck")
 
-SIGNATURES = {
-    "close_under_write_backpressure": _sig_backpressure,
-    "server_close_code_1000_without_peer_close": _sig_server_close_vs_receive,
-    "server_cancelled_close_leaves_transport_open": _sig_server_cancel_cw,
-    "client_protocol_error_code_reported": _sig_client_error_code,
-    "client_eof_handler_overwrites_close_code": _sig_client_eof_overwrite,
-    "client_close_timeout_restarts_per_message": _sig_client_close_timeout_restart,
-}
+SIGNATURES: dict = {}
 
 
 def build_model():
@@ -932,7 +880,10 @@ def run(ctx):
 
 
 def replay(ctx, case):
-    ok, exe = build_model()
+    try:
+        ok, exe = build_model()
+    except Exception as e:  # noqa  (e.g. --replay under VERIF_REPO: the isolated work dir has no coq/_CoqProject)
+        ok, exe = False, repr(e)
     cfg = Cfg.from_json(case["cfg"])
     world = World()
     try:
